@@ -22,60 +22,44 @@ theorem takeName_append (t : List Nat) : (takeName t).1 ++ (takeName t).2 = t :=
 
 /-- per-character part of `fieldNameInDomain` -/
 def charOk (decVal : Nat → Option Nat) (c : Nat) : Bool :=
-  c != 43 && (isAsciiDigit c || (decVal c).isNone)
+  isAsciiDigit c || (decVal c).isNone
 
-theorem runsSmall_append (a b : List Nat) : ∀ v, runsSmall v (a ++ b) = true → ∃ v', runsSmall v' b = true := by
-  induction a with
-  | nil => intro v h; exact ⟨v, h⟩
-  | cons c rest ih =>
-    intro v h
-    simp only [List.cons_append, runsSmall] at h
-    split at h
-    · simp at h; exact ih _ h.2
-    · exact ih _ h
-
-/-- digits: inside the domain CPython's `get_integer` and Rust's `usize::from_str` read the same
-    number (or both see a non-number) -/
+/-- digits: CPython's `get_integer` and `parse_index` read the same number, see the same non-number,
+    and report "too many digits" on the same texts -/
 theorem digits_eq (decVal : Nat → Option Nat)
     (hdec : ∀ c, isAsciiDigit c = true → decVal c = some (c - 48))
-    (s tail : List Nat) : ∀ acc, (∀ c ∈ s, charOk decVal c = true) → runsSmall acc (s ++ tail) = true →
-    getIntegerGo decVal acc s = .ok (parseDigits acc s) := by
+    (s : List Nat) : ∀ acc, (∀ c ∈ s, charOk decVal c = true) →
+    accepted (getIntegerGo decVal acc s) = accepted (parseIndexGo acc s) := by
   induction s with
-  | nil => intro acc _ _; simp [getIntegerGo, parseDigits]
+  | nil => intro acc _; simp [getIntegerGo, parseIndexGo, accepted]
   | cons c rest ih =>
-    intro acc hc hr
+    intro acc hc
     have hc1 := hc c (by simp)
-    simp only [List.cons_append, runsSmall] at hr
-    simp only [getIntegerGo, parseDigits]
+    simp only [getIntegerGo, parseIndexGo]
     by_cases hd : isAsciiDigit c = true
     · have hd' : 48 ≤ c ∧ c ≤ 57 := by simpa [isAsciiDigit] using hd
-      simp [hd] at hr
       rw [hdec c hd]
       simp only [hd', and_self, ↓reduceIte]
-      have h1 : ¬ acc > (ssizeMax - (c - 48)) / 10 := by
-        simp only [ssizeMax]; omega
-      have h2 : ¬ acc * 10 + (c - 48) > usizeMax := by
-        simp only [usizeMax]; omega
-      simp only [h1, h2, ↓reduceIte]
-      exact ih _ (fun x hx => hc x (by simp [hx])) hr.2
+      by_cases hov : acc > (ssizeMax - (c - 48)) / 10
+      · have h2 : acc * 10 + (c - 48) > isizeMax := by
+          simp only [ssizeMax] at hov; simp only [isizeMax]; omega
+        simp [hov, h2, accepted]
+      · have h2 : ¬ acc * 10 + (c - 48) > isizeMax := by
+          simp only [ssizeMax] at hov; simp only [isizeMax]; omega
+        simp only [hov, h2, ↓reduceIte]
+        exact ih _ (fun x hx => hc x (by simp [hx]))
     · have hd' : ¬ (48 ≤ c ∧ c ≤ 57) := by simpa [isAsciiDigit] using hd
       simp [charOk, hd] at hc1
-      simp [hc1.2, hd']
+      simp [hc1, hd', accepted]
 
 theorem integer_eq (decVal : Nat → Option Nat)
     (hdec : ∀ c, isAsciiDigit c = true → decVal c = some (c - 48))
-    (s tail : List Nat) (hc : ∀ c ∈ s, charOk decVal c = true) (hr : runsSmall 0 (s ++ tail) = true) :
-    getInteger decVal s = .ok (parseUsize s) := by
-  cases s with
-  | nil => simp [getInteger, parseUsize]
-  | cons c rest =>
-    have hc1 := hc c (by simp)
-    have h43 : c ≠ 43 := by simp [charOk] at hc1; exact hc1.1
-    have : parseUsize (c :: rest) = parseDigits 0 (c :: rest) := by
-      unfold parseUsize
-      split <;> simp_all
-    rw [this]
-    simp only [getInteger, reduceCtorEq, ↓reduceIte]
-    exact digits_eq decVal hdec (c :: rest) tail 0 hc hr
+    (s : List Nat) (hc : ∀ c ∈ s, charOk decVal c = true) :
+    accepted (getInteger decVal s) = accepted (parseIndex s) := by
+  unfold getInteger parseIndex
+  by_cases h : s = []
+  · simp [h, accepted]
+  · simp only [h, ↓reduceIte]
+    exact digits_eq decVal hdec s 0 hc
 
 end PV.C20
